@@ -310,6 +310,7 @@ def run_cbmc(q, gb, wd):
         return r
     r.props_total = len(results)
     wanted = set(q.covers)
+    maybe_missed = []
     known_covers = set(q.covers) | set(q.optional_covers)
     for p in results:
         desc = p.get('description', '')
@@ -320,13 +321,13 @@ def run_cbmc(q, gb, wd):
                 seq = parse_trace_inputs(p.get('trace', []))
                 r.covers_hit[lab] = seq
             elif lab in wanted:
-                r.covers_missed.append(lab)
+                maybe_missed.append(lab)
         else:
             if st == 'FAILURE':
                 r.props_failed.append((p.get('property'), desc, parse_trace_inputs(p.get('trace', []))))
             elif st not in ('SUCCESS',):
                 r.props_failed.append((p.get('property'), desc + ' [status %s]' % st, []))
-    for lab in wanted:
+    for lab in list(wanted) + maybe_missed:      # a label may occur at several places: missed only if no instance was hit
         if lab not in r.covers_hit and lab not in r.covers_missed:
             r.covers_missed.append(lab)
     definite = [x for x in r.props_failed if '[status ' not in x[1]]
